@@ -132,6 +132,12 @@ def run_cfg(ctx, fx):
     # caller's interest, or skips it, abandons invocations although no limit is configured)
     from props import c01 as _c01
     core.shared(ctx, "R11.4", _c01.check_payloads, ctx, fx, fx.cfg, "R11.4")
+    # R11.5 (shared with C04) "... or terminates as failed (fail_on_timeout)": the failure exit of the loop drops the stop notifier
+    # unsent — the termination notice is sent by `notify` only, and only the loops' graceful end calls it — so awaiting an address
+    # of an actor that was terminated by an over-limit invocation yields an error
+    from props import c04 as _c04
+    if fx.cfg == "tokio":
+        core.shared(ctx, "R11.5", _c04.check_notifier, ctx, fx, "R11.5")
     # R11.1 setters
     setters = {
         "actor::builder::BaseActorBuilder::<A, P>::timeout": "Some",
